@@ -98,15 +98,23 @@ struct Case {
     pe: PartialEntry,
     win: Win,
     salt: u32,
+    /// protocol-respecting predecessor symbol executed before the call under test (context)
+    pred: Option<usize>,
 }
 
-fn check(c: &Case, variant: &str, rep: &mut Report) {
+fn check_one(c: &Case, variant: &str, rep: &mut Report) {
     let spec = c.spec;
     let pe = &c.pe;
     let w = c.win;
     rep.eval(spec.name);
     let mut rig = Rig::simple(spec);
     let mut ops: Vec<Op> = Vec::new();
+    let mut ctx_tag: Option<String> = None;
+    if let Some(pi) = c.pred {
+        let syms = syms(spec);
+        ops.extend(syms[pi].iter().cloned());
+        ctx_tag = Some(format!("after:{}", sym_kinds(&syms, &[pi])));
+    }
     if spec.name == "epd2in9b_v4" {
         // documented protocol: base image first
         ops.push(Op::img2(K::UpdateAndDisplayBase, frame_img(spec, K::UpdateFrame, 31), Img::None));
@@ -140,9 +148,13 @@ fn check(c: &Case, variant: &str, rep: &mut Report) {
         if tags.iter().any(|t| t.starts_with("other-")) || class == "panic" {
             tags.extend(region_tags(spec, &w, class));
         }
+        if let Some(t) = &ctx_tag {
+            // only failures that do NOT occur on a fresh driver carry the context tag (decided below)
+            tags.push(t.clone());
+        }
         Failure { panel: spec.name.into(), entry: pe.k.name().into(), class: class.into(), tags, detail: format!("window ({},{},{},{}): {}", w.x, w.y, w.w, w.h, detail), case: case.clone() }
     };
-    rep.nontrivial(hash_str(&format!("{}|{}|{:?}", spec.name, pe.k.name(), w)));
+    rep.nontrivial(hash_str(&format!("{}|{}|{:?}|{:?}", spec.name, pe.k.name(), w, c.pred)));
     if !out.is_ok() {
         let mut tags = vec![];
         if let Outcome::Panic(m) = &out {
@@ -290,6 +302,31 @@ fn check(c: &Case, variant: &str, rep: &mut Report) {
     }
 }
 
+/// A failure seen in a context (after a predecessor) is reported with the context tag only when the
+/// same call on a fresh driver does not fail the same way; otherwise the fresh case owns it.
+fn check(c: &Case, variant: &str, rep: &mut Report) {
+    let mut tmp = Report::new();
+    check_one(c, variant, &mut tmp);
+    if c.pred.is_some() && !tmp.failures.is_empty() {
+        let mut fresh = Report::new();
+        let fc = Case { spec: c.spec, pe: c.pe, win: c.win, salt: c.salt, pred: None };
+        check_one(&fc, variant, &mut fresh);
+        let fresh_sigs: Vec<String> = fresh.failures.iter().map(|f| f.sig()).collect();
+        let strip = |f: &Failure| {
+            let mut g = f.clone();
+            g.tags.retain(|t| !t.starts_with("after:"));
+            g.sig()
+        };
+        let keep: Vec<Failure> = tmp.failures.iter().filter(|f| !fresh_sigs.contains(&strip(f))).cloned().collect();
+        tmp.failures.clear();
+        tmp.fail_counts.clear();
+        for f in keep {
+            tmp.fail(f);
+        }
+    }
+    rep.merge(tmp);
+}
+
 pub fn windows_for(spec: &Spec, thorough: bool, rng: &mut Rng) -> Vec<Win> {
     let wb = w8(spec) / 8;
     let h = spec.h;
@@ -365,10 +402,22 @@ pub fn run(ctx: &Ctx) -> Report {
     for spec in panels_for(ctx) {
         let mut rng = Rng::derive(ctx.seed, hash_str(spec.name) ^ 0xC06);
         let wins = windows_for(spec, ctx.tier_thorough, &mut rng);
+        // contexts: every symbol of the alphabet that is legal before a partial call
+        let syms = syms(spec);
+        let preds: Vec<usize> = (0..syms.len()).filter(|i| !syms[*i].iter().any(|o| matches!(o.k, K::Sleep))).collect();
         for pe in spec.partial {
             for (i, w) in wins.iter().enumerate() {
-                // large windows on large panels are expensive in byte-wise mode: thin them out in quick tier
-                cases.push(Case { spec, pe: *pe, win: *w, salt: 0x600 + i as u32 });
+                cases.push(Case { spec, pe: *pe, win: *w, salt: 0x600 + i as u32, pred: None });
+            }
+            // in context: the first windows of the list (edges, single byte/row, seams) per predecessor
+            let nctx = if ctx.tier_thorough { 60 } else { 14 };
+            for pi in &preds {
+                if spec.name == "epd2in13_v2" && syms[*pi].iter().any(|o| o.k == K::SetRefresh && o.arg == 2) {
+                    continue; // partial update is only legal in full mode (documented assert)
+                }
+                for (i, w) in wins.iter().enumerate().take(nctx) {
+                    cases.push(Case { spec, pe: *pe, win: *w, salt: 0x900 + i as u32, pred: Some(*pi) });
+                }
             }
         }
     }
